@@ -221,6 +221,12 @@ func (r *FeatureLocal) ApproveOrDenyWrite(msg *api.Message, err model.ErrorType)
 
 	ski := msg.DeviceRemote.Ski()
 
+	// the message may stem from a connection that has been removed (and replaced by a
+	// new connection of the same device, which starts counting its messages anew)
+	if rDevice := r.Device().RemoteDeviceForSki(ski); rDevice != nil && rDevice != msg.DeviceRemote {
+		return
+	}
+
 	r.muxResponseCB.Lock()
 	timer, ok := r.pendingWriteApprovals[ski][*msg.RequestHeader.MsgCounter]
 	count := len(r.writeApprovalCallbacks)
